@@ -44,6 +44,32 @@ pub fn text(excl: &'static [char], max: usize) -> impl Strategy<Value = String> 
     prop_oneof![19 => generated, 1 => notable]
 }
 
+/// Integers with a bias to the values where conversions, masks and signs change behaviour (type limits, powers of two
+/// around the narrower types' limits): plain `any` almost never produces them for the wide types.
+pub trait Edgy: Copy + std::fmt::Debug + proptest::arbitrary::Arbitrary + 'static {
+    fn edges() -> Vec<Self>;
+}
+macro_rules! edgy {
+    ($($t:ty),*) => {
+        $(impl Edgy for $t {
+            fn edges() -> Vec<$t> {
+                let mut v: Vec<$t> = vec![0 as $t, 1 as $t, 2 as $t, <$t>::MAX, <$t>::MAX - 1, <$t>::MIN, <$t>::MIN + 1, <$t>::MAX / 2, <$t>::MAX / 2 + 1];
+                for x in [127i128, 128, 255, 256, 32767, 32768, 65535, 65536, 16_777_215, 16_777_216, 2_147_483_647, 2_147_483_648, 4_294_967_295, 4_294_967_296, -1, -128, -129, -32768, -32769] {
+                    if let Ok(y) = <$t>::try_from(x) {
+                        v.push(y);
+                    }
+                }
+                v.sort();
+                v.dedup();
+                v
+            }
+        })*
+    };
+}
+edgy!(u8, u16, u32, u64, i8, i16, i32, i64);
+
+pub fn num<T: Edgy>() -> impl Strategy<Value = T> { prop_oneof![5 => any::<T>(), 1 => prop::sample::select(T::edges())] }
+
 /// Non-empty ASCII identifier-like key.
 pub fn key() -> impl Strategy<Value = String> { "[A-Za-z][A-Za-z0-9]{0,11}".prop_map(|s| s) }
 
